@@ -20,6 +20,7 @@ const (
 	CommitFails    FaultKind = "commit_fails"           // COMMIT fails, the transaction is rolled back
 	ConnLostInTx   FaultKind = "conn_lost_in_tx"        // connection dies inside a transaction: rolled back, later statements fail
 	ErrAfterApply  FaultKind = "err_after_apply"        // the statement was applied but the reply is lost
+	RowRejected    FaultKind = "copy_row_rejected"      // one row of a COPY is refused on the client side (a value that cannot be converted): that Exec fails, the statement stays usable
 )
 
 // Event is what the fault plane is asked about.
@@ -101,6 +102,8 @@ type conn struct {
 	openRows int
 	closed   bool
 }
+
+var errRowRejected = errors.New("pgsim: injected fault: this row cannot be converted to the column types (client side)")
 
 var errInjected = errors.New("pgsim: injected fault: the server closed the connection unexpectedly")
 
@@ -412,9 +415,12 @@ func (cp *copyIn) Exec(args []driver.Value) (driver.Result, error) {
 		}
 		return driver.RowsAffected(int64(len(cp.rows))), nil
 	}
-	if k := cp.c.s.ask(Event{Op: "copy-row", SQL: cp.sql, InTx: true}, ConnLostInTx); k == ConnLostInTx {
+	switch cp.c.s.ask(Event{Op: "copy-row", SQL: cp.sql, InTx: true}, ConnLostInTx, RowRejected) {
+	case ConnLostInTx:
 		cp.c.loseConnection()
 		return nil, errInjected
+	case RowRejected:
+		return nil, errRowRejected
 	}
 	cp.rows = append(cp.rows, toArgs(args))
 	return driver.RowsAffected(0), nil
